@@ -127,7 +127,7 @@ func init() {
 func init() {
 	addProp(&propDef{
 		ID: "C07", Check: "policy", Level: "fault_enumeration",
-		Rule: "command trees of the bound with Before/After/Action on every level x spec assignments over {`[-f]`, `[-f] X`, `[-i] [-o]` (int and string options), `N` (int argument)} x every target x per-level argvs covering every rejection kind (spec mismatch at each level, undeclared option, missing value, unconvertible value for an int option / argument) and accepted controls x every assignment of {ContinueOnError, ExitOnError, PanicOnError} to the levels of the path, set inside each command's initializer; judged against the reference router: rejected => no hook and no Action ran, `Error:` and the usage line of the rejecting command on the error stream, then exactly the policy of that command; accepted => hooks in nesting order, nil, no exit, no panic; non-trivial = rejected invocations",
+		Rule: "command trees of the bound with Before/After/Action on every level x spec assignments over {`[-f]`, `[-f] X`, `[-i] [-o]` (int and string options), `N` (int argument)} x every target x per-level argvs covering every rejection kind (spec mismatch at each level, undeclared option, missing value, unconvertible value for an int option / argument) and accepted controls x every assignment of {ContinueOnError, ExitOnError, PanicOnError} to the root and of {inherited, ContinueOnError, ExitOnError, PanicOnError} to every deeper level of the path, set inside each command's initializer; judged against the reference router: rejected => no hook and no Action ran, `Error:` and the usage line of the rejecting command on the error stream, then exactly the policy of that command; accepted => hooks in nesting order, nil, no exit, no panic; non-trivial = rejected invocations",
 		Assumptions: []string{"per-level validation uses the reference semantics of DESIGN.md section 4 plus strconv for int containers"},
 	})
 }
@@ -167,5 +167,21 @@ func init() {
 		ID: "C16", Check: "implicit", Level: "exploration",
 		Rule: "every declaration set of the bound (0-3 options among flag / valued / multi-valued / env-backed, 0-3 arguments each single or multi-valued, with and without a version flag) built twice - Spec left empty, and the explicit spec `[OPTIONS] A B ..` assembled by the oracle from the documentation's rule - x every argv up to the length bound over the set's own alphabet: acceptance, every bound value, every SetByUser flag and the error text must be identical, and the usage line printed by the implicit variant on rejection must show the explicit spec; non-trivial = sets declaring at least two items",
 		Assumptions: []string{"differential: the explicit-spec variant of the same library is the oracle; what that spec means is C01's business"},
+	})
+}
+
+func init() {
+	addProp(&propDef{
+		ID: "C18", Check: "decl", Level: "exploration",
+		Rule: "all sequences of <= 3 option declarations over the 16 name lists built from {a, b, aa, bb} (collisions between any two names of any two options, either order, short and long) and all sequences of <= 3 argument declarations over 16 candidate names (valid identifiers, lower case, leading digit / underscore, dash, dot, brackets, OPTIONS, non-ASCII, empty); judged: the declaration panics iff a name is already taken / the name is not [A-Z][A-Z0-9_]* or is OPTIONS; after a clean sequence every listed name, typed on the command line, sets exactly the variable it was listed for (one fresh application and one run per name), and every argument receives its own token; non-trivial = sequences with a collision or an invalid name",
+		Assumptions: []string{"expected panics computed by a 10-line name table / one regular expression"},
+	})
+}
+
+func init() {
+	addProp(&propDef{
+		ID: "C19", Check: "custom", Level: "exploration",
+		Rule: "12 logging custom flag.Value types (every combination of IsBoolFlag absent/false/true, Clear absent/present, IsDefault absent/present) as option and as argument x 5 specs x 4 environment settings (unset, single, list, failing) x every argv up to length 3 over the option's spellings, values, a token on which Set fails, and `--`; judged on the per-instance call log: at declaration the environment content arrives through Set (after Clear for a multi-valued type); during Run: Clear exactly once and first iff the type has Clear and a command-line value is bound, then Set with exactly the tokens the reference matcher binds, in order (Set(\"true\") for a bare flag of a type whose IsBoolFlag() is true; other types take a value); a Set error gives a usage error and the Action does not run; non-trivial = command lines with an accepting derivation",
+		Assumptions: []string{"bound tokens come from the reference semantics of DESIGN.md section 4 (any accepting derivation)", "when two containers are filled and one Set fails, the other container may or may not have been filled (map iteration order): both are accepted"},
 	})
 }
